@@ -111,8 +111,20 @@ static void edit_nonrepresentable(hwloc_topology_t b)
 static void edit_nonrepresentable1(hwloc_topology_t b)
 {
   struct hx h; hx_init(&h, b, &R);
-  unsigned kind = (unsigned)hv_below(&R, 13);
+  unsigned kind = (unsigned)hv_below(&R, 15);
   hwloc_obj_t o = hx_pick_obj(&h, 0);
+  if (kind >= 13) {
+    /* the allowed sets of the topology: only the cpuset, or only the nodeset, shrinks (needs INCLUDE_DISALLOWED) */
+    if (!(hwloc_topology_get_flags(b) & HWLOC_TOPOLOGY_FLAG_INCLUDE_DISALLOWED)) return;
+    int bynode = kind == 14; hwloc_bitmap_t set = hwloc_bitmap_dup(bynode ? hwloc_topology_get_allowed_nodeset(b) : hwloc_topology_get_allowed_cpuset(b));
+    if (hwloc_bitmap_weight(set) < 2) { hwloc_bitmap_free(set); return; }
+    unsigned drop = (unsigned)hv_below(&R, (uint64_t)hwloc_bitmap_weight(set)), n = 0; int id; hwloc_bitmap_foreach_begin(id, set) if (n++ == drop) { hwloc_bitmap_clr(set, (unsigned)id); break; } hwloc_bitmap_foreach_end();
+    int rc = hwloc_topology_allow(b, bynode ? NULL : set, bynode ? set : NULL, HWLOC_ALLOW_FLAG_CUSTOM);
+    hv_desc("  edit*: allow(CUSTOM, %s only, one index dropped) -> %d\n", bynode ? "nodeset" : "cpuset", rc);
+    hwloc_bitmap_free(set);
+    if (rc == 0) { n_nonrepr++; edit_mask |= 1u << 20 << bynode; hv_stat(bynode ? "edits.allowed_nodeset" : "edits.allowed_cpuset", 1); }
+    return;
+  }
   if (kind >= 10) {
     /* type-specific attributes and os_index are public fields (hwloc-annotate edits some of them): a diff cannot express such a change */
     struct tv_view vw; tv_view_build(b, &vw, 0); hwloc_obj_t pick = NULL; unsigned seen = 0;
